@@ -79,7 +79,7 @@ int main(int argc, char** argv) {
 	if (!args.replay.empty()) {   // run one history from scratch in this process
 		vf::Json r = vf::Json::load(args.replay);
 		if (r.has("kind") && r.at("kind").s == "long") {
-			Alphabet A = make_alphabet((int)r.at("vm_flags").num(), false); A.with_batch = false; set_env(0); W.A = &A; compute_expected(W);
+			Alphabet A = make_alphabet((int)r.at("vm_flags").num(), false); A.with_batch = false; set_env(7); W.A = &A; compute_expected(W);
 			const Body B = long_bodies()[(size_t)r.at("body").num()]; long count = (long)r.at("count").num(); std::string why;
 			auto run = [&](const std::vector<Op>& ops) { for (auto& o : ops) { if (!W.enabled(o)) { why = "operation " + op_str(o) + " not enabled"; return false; } if (!W.apply(o)) { why = op_str(o) + ": " + W.problem; return false; } } return true; };
 			bool ok = run(setup_ops(A, 0)) && run(B.prefix); for (long c = 0; ok && c < count; ++c) ok = run(B.cycle); if (ok) ok = run(long_suffix());
@@ -163,12 +163,13 @@ int main(int argc, char** argv) {
 		struct LJ { int flags; size_t body; }; std::vector<LJ> lj; for (int f : lf) for (size_t b = 0; b < bodies.size(); ++b) lj.push_back({ f, b });
 		vf::Result rl = vf::run_shards(args, (int)lj.size(), [&](int shard) {
 			vf::Result R; const LJ& J = lj[(size_t)shard]; const Body& B = bodies[J.body];
-			Alphabet A = make_alphabet(J.flags, false); A.with_batch = false; set_env(0); W.A = &A; compute_expected(W);
+			Alphabet A = make_alphabet(J.flags, false); A.with_batch = false; set_env(7); W.A = &A; compute_expected(W);   // reuse-all: a history of 10^5 operations must not exhaust the harness arena
 			auto run = [&](const std::vector<Op>& ops, std::string& why) { for (auto& o : ops) { if (!W.enabled(o)) { why = "operation " + op_str(o) + " not enabled (harness)"; return false; } if (!W.apply(o)) { why = op_str(o) + ": " + W.problem; return false; } } return true; };
 			std::string why; std::vector<Op> setup = setup_ops(A, 0);
 			if (!run(setup, why) || !run(B.prefix, why)) { vf::Violation v; v.key = "c03:long-setup"; v.what = why; v.replay = vf::Json::obj(); R.viol.push_back(v); return R; }
 			const long maxc = (B.cheap || th) ? 65537 : 257;
 			for (long c = 1; c <= maxc && R.viol.empty(); ++c) {
+				{ char cur[200]; snprintf(cur, sizeof cur, "{\"kind\":\"long\",\"vm_flags\":%d,\"body\":%d,\"count\":%ld,\"finding_key\":\"c03:long-crash\"}", J.flags, (int)J.body, c); vf::set_current(cur); }
 				if (!run(B.cycle, why)) { vf::Violation v; v.key = "c03:long"; v.what = std::string("cycle [") + B.name + "] repetition " + std::to_string(c) + ": " + why; v.replay = vf::Json::obj().set("kind", "long").set("vm_flags", J.flags).set("body", (int)J.body).set("count", (long long)c); R.viol.push_back(v); break; }
 				R.n["long_history_operations"] += B.cycle.size();
 				bool probe = (c >= 254 && c <= 258) || (c >= 65534) || c == 1 || c == 2 || c == 127 || c == 128 || c == 129 || c == 32767 || c == 32768 || c == 32769;
